@@ -1,7 +1,7 @@
 (* Model/Lro.v — C08: long-running operations.
    Mirrors
      gapic/schema/api.py      API.build (two passes over the request: the second pass sees the messages of
-                              every file), _ProtoBuilder._maybe_get_lro, _ProtoBuilder.api_messages
+                              every file), _ProtoBuilder._maybe_get_lro, _resolve_lro_type, api_messages
      gapic/schema/metadata.py Address.resolve
      templates  _client_macros.j2 / async_client.py.j2 (method.lro branch), transports/grpc*.py.j2 (operations_client)
    and, as a contract about code outside the generator, google.api_core.operation(.Operation|_async.AsyncOperation),
@@ -37,6 +37,16 @@ Definition resolve (pkg sel : string) : string :=
 Definition universe (files : list file) : list string := flat_map f_messages files.
 Definition known (files : list file) (key : string) : bool := mem_str key (universe files).
 
+(* _ProtoBuilder._resolve_lro_type: the name as Address.resolve reads it wins when it is a known message; otherwise a
+   dotted name is tried relative to the package (a nested message such as Outer.Inner); when neither reading is known
+   the as-written key is kept (and the lookup that follows fails on it) *)
+Definition relative_key (pkg sel : string) : string := pkg ++ "." ++ sel.
+Definition resolve_lro (files : list file) (pkg sel : string) : string :=
+  let key := resolve pkg sel in
+  if known files key then key
+  else if known files (relative_key pkg sel) then relative_key pkg sel
+  else key.
+
 Definition OPERATION_SUFFIX : string := "google.longrunning.Operation".
 Definition OPERATION_TYPE : string := ".google.longrunning.Operation".
 
@@ -57,8 +67,8 @@ Definition decide (files : list file) (pkg : string) (m : method) : decision :=
     | Some oi =>
         if is_empty (oi_response oi) || is_empty (oi_metadata oi) then Rejected ErrMissingType
         else
-          let rk := resolve pkg (oi_response oi) in
-          let mk := resolve pkg (oi_metadata oi) in
+          let rk := resolve_lro files pkg (oi_response oi) in
+          let mk := resolve_lro files pkg (oi_metadata oi) in
           if negb (known files rk) then Rejected (ErrUnknownType rk)
           else if negb (known files mk) then Rejected (ErrUnknownType mk)
           else Lro rk mk
